@@ -356,6 +356,17 @@ impl ViCut {
 		let was_insert = self.mode.report_mode() == ModeReport::Insert;
 		let should_go_back_one = matches!(self.mode.report_mode(), ModeReport::Insert | ModeReport::Replace);
 		let was_normal = self.mode.report_mode() == ModeReport::Normal;
+		if should_go_back_one && self.mode.is_repeatable() {
+			// The session is closed as <esc> would close it: '.' repeats all of it, with the step back at its end
+			if let Some(CmdReplay::ModeReplay { mut cmds, repeat }) = self.mode.as_replay() {
+				cmds.push(ViCmd {
+					verb: Some(VerbCmd(1, Verb::NormalMode)),
+					motion: Some(MotionCmd(1, Motion::BackwardChar)),
+					..Default::default()
+				});
+				self.repeat_action = Some(CmdReplay::ModeReplay { cmds, repeat });
+			}
+		}
 		self.mode = Box::new(ViNormal::new());
 		self.current_buffer().stop_selecting();
 		// Where the closed insert session began is of no concern to the next command (it bounds ctrl-w only)
